@@ -41,7 +41,7 @@ func c28ViewConsistency(c *core.Ctx) {
 		}
 		nOps, nWriters := 0, 0
 		for _, cm := range comps {
-			res := core.RunLockset(p, cm.spec)
+			res := c28RunLockset(p, cm.spec)
 			type view struct{ touched, written map[string]bool }
 			own := map[*core.FuncInfo]*view{}
 			for _, a := range res.Accesses {
